@@ -31,6 +31,8 @@ for sid in sorted(os.listdir(os.path.join(V, "seeded"))):
         results[sid] = dict(property=prop, outcome="property not claimed")
         continue
     wt = "/tmp/seedconf/%s" % prop
+    if not os.path.isdir(wt):  # scratch worktree of /repo, outside /repo and /verif; removed by tools/clean_scratch.sh
+        subprocess.run(["git", "-C", "/repo", "worktree", "add", "--detach", "-q", wt, "HEAD"], check=True)
     if subprocess.run("git checkout -q -- flumine && git apply %s/patch.diff" % d, cwd=wt, shell=True).returncode != 0:
         # a change written against a later /repo commit: bring the scratch worktree to /repo's HEAD first
         subprocess.run("git checkout -q --detach $(git -C /repo rev-parse HEAD) && git checkout -q -- flumine && git apply %s/patch.diff" % d, cwd=wt, shell=True, check=True)
